@@ -104,6 +104,16 @@ def _callers(tree, rel, clsname, meth):
 
 
 def c04b(tree, ob):
+    # nothing but the contact header precedes SESS_INIT: the keepalive timer runs on a NEGOTIATED interval, which does not
+    # exist before both SESS_INITs were seen
+    msgr = tree.klass(SESS, 'Messenger')
+    for (func, st, _k, val) in stores_to_self_attr(msgr, '_keepalive_time'):
+        if func.name == 'merge_session_params':
+            ob.site(SESS, st, 'keepalive interval set by negotiation')
+        elif isinstance(val, ast.Constant) and val.value in (0, None):
+            ob.site(SESS, st, 'keepalive interval is 0 until negotiated ({})'.format(func.name))
+        else:
+            ob.violate(SESS, 'Messenger.' + func.name, src(st), 'the keepalive interval is set before negotiation: a KEEPALIVE can be written between the contact header and SESS_INIT', st)
     expect = {
         'contact.Head': ('Messenger.send_contact_header', 'send_contact_header'),
         'messages.SessionInit': ('Messenger.send_sess_init', 'send_sess_init'),
